@@ -29,16 +29,28 @@ def valid_line(sec, tok, tick):
     return {"k1": f'{tick} = E "lyric l{tick}"', "k2": f'{tick} = E "section s{tick}"', "k3": f'{tick} = E "text {tick}"'}[tok]
 
 
-def make_section(r, sec, tokens):
-    """tokens -> (body lines, tick per line).  Ticks strictly increase with the position (after a base)."""
+# kinds whose lines may legitimately occur twice, verbatim, in a well-formed section (a repeated N line or tempo line is not
+# well-formed; a repeated phrase, track event, time signature, anchor or global event is just two data)
+REPEATABLE = {"track": {"k2", "k3"}, "sync": {"k2", "k3"}, "events": {"k1", "k2", "k3"}}
+
+
+def make_section(r, sec, tokens, copy=False):
+    """tokens -> (body lines, tick per line).  Ticks strictly increase with the position (after a base); with copy=True a
+    repeatable valid line is, more often than not, a verbatim copy of the latest earlier line of its kind (directly after
+    it, or with other / unparsable lines in between)."""
     body, ticks = [], []
+    latest = {}
     for k, tok in enumerate(tokens, start=1):
         tick = 10 * k
-        ticks.append(tick)
         if tok == "junk":
             body.append(r.choice(JUNK[sec]))
+        elif copy and tok in REPEATABLE[sec] and tok in latest and r.random() < 0.6:
+            line, tick = latest[tok]
+            body.append(line)
         else:
             body.append(valid_line(sec, tok, tick))
+            latest[tok] = (body[-1], tick)
+        ticks.append(tick)
     return body, ticks
 
 
@@ -53,9 +65,21 @@ def assemble(sec, body):
     return "\n".join(song + sync + ev + tr) + "\n"
 
 
-def observed(sec, chart, ticks):
+def observed(sec, chart, ticks, tokens=None):
     """per kind: indices (1-based) of the body lines whose data were observed, in observed order."""
-    pos = {t: k + 1 for k, t in enumerate(ticks)}
+    slots = {}
+    for k, t in enumerate(ticks):
+        slots.setdefault(t, []).append(k + 1)
+
+    class _Pos:
+        # the n-th observed event of a kind at a tick is attributed to the n-th body line of that kind carrying the tick
+        def __init__(self, kind_positions):
+            self.left = {t: list(v) for t, v in kind_positions.items()}
+
+        def get(self, t, default=0):
+            v = self.left.get(t)
+            return v.pop(0) if v else default
+    pos = None
     if sec == "track":
         t = [tr for _, dd in chart.instrument_tracks.items() for _, tr in dd.items()][0]
         kinds = [t.note_events, t.star_power_events, t.track_events]
@@ -65,7 +89,13 @@ def observed(sec, chart, ticks):
     else:
         g = chart.global_events_track
         kinds = [g.lyric_events, g.section_events, g.text_events]
-    return [[pos.get(int(e.tick), 0) for e in evs] for evs in kinds]
+    out = []
+    for kind_no, evs in enumerate(kinds):
+        tok = f"k{kind_no + 1}"
+        mine = {t: [k for k in v if tokens is None or tokens[k - 1] == tok] for t, v in slots.items()}
+        pos = _Pos(mine)
+        out.append([pos.get(int(e.tick), 0) for e in evs])
+    return out
 
 
 def sec_digest(sec, chart):
@@ -77,18 +107,18 @@ def sec_digest(sec, chart):
     return observe.digest(o["global"])
 
 
-def record(r, cid, sec, tokens):
-    body, ticks = make_section(r, sec, tokens)
+def record(r, cid, sec, tokens, copy=False, given=None):
+    body, ticks = given if given is not None else make_section(r, sec, tokens, copy=copy)
     text = assemble(sec, body)
     clean_body = [ln for ln, tok in zip(body, tokens) if tok != "junk"]
     kind, val, logs = parse_logged(text)
     ck, cval, _ = parse_logged(assemble(sec, clean_body))
     rec = {"id": cid, "props": ["C14"], "kind": "dispatch", "sec": sec, "lines": list(tokens), "raised": "", "got": [[], [], []],
-           "warn": [], "bogus": 0, "clean": "", "dirty": ""}
+           "warn": [], "bogus": 0, "clean": "", "dirty": "", "body": body, "ticks": ticks}
     if kind != "chart" or ck != "chart":
         rec["raised"] = type(val if kind != "chart" else cval).__name__
         return rec, text
-    rec["got"] = observed(sec, val, ticks)
+    rec["got"] = observed(sec, val, ticks, tokens)
     rec["clean"], rec["dirty"] = sec_digest(sec, cval), sec_digest(sec, val)
     # Reports (records of level >= WARNING on a chartparse logger, or warnings) are attributed in order: a report
     # names a line if it contains the line verbatim, as it stands in the file, in double quotes.  Reports that
@@ -156,11 +186,29 @@ def run(ctx):
         for _ in range(r.choice([0, 1, 2])):
             toks.append("junk")
         sec = r.choice(["track", "sync", "events"])
-        rec, text = record(r, f"s{j}", sec, toks)
+        rec, text = record(r, f"s{j}", sec, toks, copy=(j % 3 == 0))
         recs.append(rec)
         texts[rec["id"]] = text
         ctx.evaluations += 1
         ctx.distinct([sec, toks])
+    # verbatim repeated lines: directly after each other, with one unparsable line in between, with another kind in between
+    j = 0
+    for sec in ("track", "sync", "events"):
+        for tok in sorted(REPEATABLE[sec]):
+            other = "k1"
+            for toks in ([tok, tok], [tok, tok, tok], [tok, "junk", tok], [tok, other, tok], ["junk", tok, tok, "junk"], [other, tok, tok, other, tok],
+                         [tok, "junk", "junk", tok, tok]):
+                for _ in range(ctx.pick(2, 10)):
+                    body, ticks = make_section(r, sec, toks, copy=False)
+                    first = next(k for k, t in enumerate(toks) if t == tok)
+                    for k, t in enumerate(toks):
+                        if t == tok:
+                            body[k], ticks[k] = body[first], ticks[first]
+                    rec, text = record(r, f"rep{j}", sec, toks, given=(body, ticks))
+                    recs.append(rec)
+                    texts[rec["id"]] = text
+                    j += 1
+                    ctx.evaluations += 1
     by_id = {x["id"]: x for x in recs}
     for rid, p, clause in ctx.validate(recs):
         ctx.violation(clause, {"kind": "dispatch", "record": by_id[rid], "text": texts[rid]}, key=clause + "|" + by_id[rid]["sec"])
@@ -174,6 +222,7 @@ def run(ctx):
 def replay(ctx, obj):
     rec = obj["record"]
     r = rng("C14-replay")
-    rec2, text = record(r, rec["id"], rec["sec"], rec["lines"])
+    given = (rec["body"], rec["ticks"]) if "body" in rec else None
+    rec2, text = record(r, rec["id"], rec["sec"], rec["lines"], given=given)
     for rid, p, clause in ctx.validate([rec2]):
         ctx.violation(clause, {"kind": "dispatch", "record": rec2, "text": text})
